@@ -341,6 +341,36 @@ PROPS = {
                         "the 32-bit tracking identifiers are distinct"],
         "n": {"quick": 10, "thorough": 50},
     },
+    "C14": {
+        "theorems": ["C14_fresh_problem", "C14_run_after_problem", "C14_valid_order_free", "C05_complete_core"],
+        "profiles": [("all", 0.6), ("obj", 0.2), ("buffer", 0.2)],
+        "relevant": lambda o: True,
+        "spec": None,
+        "exact": True,
+        "history_enc": True,
+        "run_profiles": ["frag", "frag", "taskc", "obj", "buffer", "resc"],
+        "n_run": {"quick": 120, "thorough": 2000},
+        "run_check": __import__("harness.c14", fromlist=["x"]).run_c14,
+        "nontrivial": lambda s: True,
+        "rule": "ENC with exactness after history: every script is built by a long-lived worker process that has built "
+                "dozens of other problems before (same element names), and its assertion list must be the one of the "
+                "stateless model; RUN, three searches on the real code with real z3: (rename) a bijection onto fresh names "
+                "(other lengths and orders, names that are prefixes of one another) — (permute) tasks / workers / buffers / "
+                "unreferenced constraints permuted among the slots of their kind — both compared with the original by "
+                "verdict, up to 5 cross-pinned schedules in each direction (times of scheduled tasks, durations, flags, "
+                "selections, applied flags, horizon) and the z3 optimum of the declared objective; (history) 1..3 unrelated "
+                "problems built and solved first with the same solver configuration (default, logics, optimize, debug, "
+                "random_values, parallel), then the problem: accepted declarations, canonical assertion list, verdict, "
+                "validity and objective value must equal those of a fresh interpreter (subprocess)",
+        "assumptions": ["the unbounded statements proved are C14_fresh_problem / C14_run_after_problem (no state survives a "
+                        "new problem in the model) and C14_valid_order_free (the documented meaning is order-free); "
+                        "invariance of the real code under renaming and permutation is decided by the RUN search together "
+                        "with soundness/completeness (C01-C05), not by a theorem over all renamings",
+                        "objective values are compared only when both runs finished well before max_time",
+                        "F20 (parking-instant collision under ResourceNonDelay / ResourceTasksDistance) is a recorded finding; "
+                        "scripts in that region are not permuted"],
+        "n": {"quick": 150, "thorough": 3000},
+    },
     "C02": {
         "theorems": ["C02_no_overlap", "C02_load_le_one", "C02_cumulative_capacity", "C02_busy_span",
                      "C02_selection_count", "C02_work_amount"],
